@@ -12,9 +12,9 @@ from vf.common import Acc, Ctx, sig_of
 from vf.oracle.di_model import Expect, MContainer, MValueError
 
 LEVEL = 'exploration'
-RULE = ('random operation sequences (length 8..40) over 6 symbol spellings (two generic aliases of one origin), 20 factories '
+RULE = ('random operation sequences (length 8..40) over 8 symbol spellings (two generic aliases of one origin, two classes of one name nested in different classes), 24 factories '
 	'(classes, annotated functions, constructors, bound methods, callable object, lambdas; direct and by-name lazy registration) and '
-	'any container created so far; one evaluation = one sequence replayed on the real container and the model; distinct = distinct '
+	'any container created so far (including further containers instantiated from the dict object an earlier one was given, which must stay unchanged); one evaluation = one sequence replayed on the real container and the model; distinct = distinct '
 	'operation-kind sequence; non-trivial = the sequence holds at least one combine or rebind or failing operation')
 ASSUMPTIONS = [
 	'factories are acyclic by construction (a factory bound to a symbol only depends on symbols of lower level)',
@@ -27,7 +27,7 @@ BUDGET_S = {'quick': 40, 'thorough': 420}
 N_CASES = {'quick': 30000, 'thorough': 1500000}
 MIN_OBS = {'op': {'quick': 100000, 'thorough': 2000000}}
 
-SYMS = ['S0', 'S1', 'S2', 'G', 'G[int]', 'G[str]']
+SYMS = ['S0', 'S1', 'S2', 'G', 'G[int]', 'G[str]', 'L.Opt', 'R.Opt']  # the last two: same class name in two enclosing classes (direct binding only)
 LAZY_SYMS = ['S0', 'S1', 'S2', 'G']
 
 
@@ -117,11 +117,17 @@ def gen_sequence(r: random.Random) -> list[list]:
 			kinds.append(kinds[c])
 			ncont += 1
 		else:
-			if r.random() < 0.5:
+			y = r.random()
+			lazies = [i for i, o in enumerate([o for o in ops if o[0] in ('new_di', 'new_lazy', 'new_lazy_same', 'combine')]) if o[0] == 'new_lazy']
+			if y < 0.4:
 				ops.append(['new_di'])
 				kinds.append('DI')
-			else:
+			elif y < 0.7 or not lazies:
 				ops.append(['new_lazy', {}])
+				kinds.append('Lazy')
+			else:
+				# a second container instantiated from the very dict object an earlier one was given
+				ops.append(['new_lazy_same', r.choice(lazies)])
 				kinds.append('Lazy')
 			ncont += 1
 	return ops
@@ -142,6 +148,7 @@ class Runner:
 		self.model: list[MContainer] = []
 		self.seen: dict[int, object] = {}
 		self.trace: list[str] = []
+		self.defs: dict[int, tuple] = {}  # container index -> (the dict object it was instantiated from, its content then, the op's spec)
 
 	def match(self, e, real, where: str) -> None:
 		if isinstance(e, Expect):
@@ -213,6 +220,20 @@ class Runner:
 			for s, (f, by_name) in op[1].items():
 				path = u.FACTORIES[s][2]
 				defs[path] = u.FACTORIES[f][2] if by_name else u.FACTORIES[f][0]
+				mc.do_bind(s, f)
+				mc.bind[s].lazy_unmaterialized = True
+			self.defs[len(self.real)] = (defs, dict(defs), op[1])
+			self.real.append(self.LazyDI.instantiate(defs))
+			self.model.append(mc)
+			return 'ok'
+		if kind == 'new_lazy_same':
+			if op[1] not in self.defs:
+				return 'skipped-precondition'
+			defs, before, spec = self.defs[op[1]]
+			if defs != before:
+				raise Mismatch(f'new_lazy_same: the definitions dict given to container {op[1]} was changed by the container(s) made from it: {sorted(before)} -> {sorted(defs)}')
+			mc = MContainer('Lazy', u)
+			for s, (f, by_name) in spec.items():
 				mc.do_bind(s, f)
 				mc.bind[s].lazy_unmaterialized = True
 			self.real.append(self.LazyDI.instantiate(defs))
@@ -311,7 +332,7 @@ def shrink(ops: list[list], kind: str) -> list[list]:
 	while changed:
 		changed = False
 		for i in range(len(cur) - 1, -1, -1):
-			if cur[i][0] in ('new_di', 'new_lazy', 'combine'):
+			if cur[i][0] in ('new_di', 'new_lazy', 'new_lazy_same', 'combine'):
 				continue
 			cand = cur[:i] + cur[i + 1:]
 			res = run_sequence(cand)
@@ -337,7 +358,7 @@ def check_ops(acc: Acc, ops: list[list]) -> None:
 			acc.see('op', op[0])
 			if out.startswith('ValueError'):
 				acc.see('refusal', op[0] + ':' + out.split(':', 1)[1])
-			if op[0] in ('combine', 'new_lazy', 'new_di'):
+			if op[0] in ('combine', 'new_lazy', 'new_lazy_same', 'new_di') and out == 'ok':
 				acc.see('container_kind', rn.model[-1].kind)
 		except Mismatch as e:
 			failing = ('model-mismatch/' + op[0], str(e), i)
@@ -345,6 +366,12 @@ def check_ops(acc: Acc, ops: list[list]) -> None:
 		except Exception as e:  # noqa
 			failing = ('unexpected-exception/' + op[0], f'{type(e).__name__}: {e}', i)
 			break
+	if failing is None:
+		for ci, (defs, before, _) in rn.defs.items():
+			acc.see('caller_dict_checked', 'unchanged' if defs == before else 'changed')
+			if defs != before:
+				failing = ('model-mismatch/caller-dict', f'the definitions dict given to container {ci} was changed by the container: {sorted(before)} -> {sorted(defs)}', len(ops) - 1)
+				break
 	kinds = [o[0] for o in ops]
 	nontrivial = any(k in ('combine', 'rebind') for k in kinds) or any(o.startswith('ValueError') for o in outcomes)
 	acc.case(sig_of(kinds), {'ops': ops[:14], 'outcomes': outcomes[:14]} if len(ops) <= 16 else None, nontrivial)
@@ -370,9 +397,23 @@ FIXED_WITNESSES = [
 ]
 
 
+# scripted histories: two containers from one definitions dict; names that differ only in their enclosing class
+SCRIPTED = [
+	[['new_lazy', {'S0': ['f_plain', False], 'S1': ['f_dep0', True]}], ['new_lazy_same', 0], ['bind', 0, 'S2', 'f_plain2'], ['can_resolve', 1, 'S2'], ['resolve', 1, 'S2'],
+		['unbind', 0, 'S1'], ['can_resolve', 1, 'S1'], ['resolve', 1, 'S1'], ['resolve', 0, 'S0'], ['resolve', 1, 'S0'], ['new_lazy_same', 0], ['resolve', 2, 'S1'], ['can_resolve', 2, 'S2']],
+	[['new_lazy', {'S0': ['f_plain', False]}], ['new_lazy_same', 0], ['resolve', 0, 'S0'], ['rebind', 0, 'S0', 'f_plain2'], ['resolve', 1, 'S0'], ['resolve', 0, 'S0'], ['unbind', 1, 'S0'], ['can_resolve', 0, 'S0']],
+	[['new_lazy', {}], ['bind', 0, 'L.Opt', 'L.Opt'], ['can_resolve', 0, 'R.Opt'], ['resolve', 0, 'R.Opt'], ['bind', 0, 'R.Opt', 'R.Opt'], ['resolve', 0, 'L.Opt'], ['resolve', 0, 'R.Opt'],
+		['unbind', 0, 'L.Opt'], ['can_resolve', 0, 'R.Opt'], ['resolve', 0, 'R.Opt'], ['can_resolve', 0, 'L.Opt']],
+	[['new_di'], ['bind', 0, 'R.Opt', 'f_plain'], ['can_resolve', 0, 'L.Opt'], ['bind', 0, 'L.Opt', 'L.Opt'], ['resolve', 0, 'L.Opt'], ['resolve', 0, 'R.Opt'], ['combine', 0, 0], ['unbind', 1, 'R.Opt'], ['resolve', 1, 'L.Opt']],
+	[['new_di'], ['bind', 0, 'S0', 'S0'], ['bind', 0, 'S1', 'S1'], ['invoke', 0, 'Left.create', 'match', 1], ['invoke', 0, 'Right.create', 'match', 2], ['invoke', 0, 'Left.create', 'match', 3],
+		['invoke', 0, 'Right.create', 'extra', 4], ['invoke', 0, 'Left.create', 'extra', 5]],
+	[['new_lazy', {'S0': ['S0', True]}], ['invoke', 0, 'Right.create', 'match', 2], ['invoke', 0, 'Left.create', 'match', 3], ['bind', 0, 'S1', 'S1'], ['invoke', 0, 'Right.create', 'match', 6], ['invoke', 0, 'maker_a.make', 'match', 1]],
+]
+
+
 def shard(ctx: Ctx, acc: Acc) -> None:
 	if ctx.shard == 0:
-		for w in FIXED_WITNESSES:
+		for w in FIXED_WITNESSES + SCRIPTED:
 			check_ops(acc, w)
 	n = N_CASES[ctx.tier]
 	for i in range(n):
